@@ -33,18 +33,27 @@ def looks_like(s):
     return ""
 
 
-def mark(v, itn, quote):
-    """add the exclusion marks of the quantifier to every string of a projected value"""
+def mark(v, itn, quote, generated=False):
+    """add the exclusion marks of the quantifier to every string of a projected value.
+
+    For corpus files the source shape of a value is not known, so every string that looks like an
+    expression / regex / list / binding counts as a look-alike.  For generated documents the source shape
+    is known: string contents never look like one of those (the pools see to it), so a value of that form
+    IS an expression / regex / list / binding, printed verbatim (no look-alike, no output quoting)."""
     if v["t"] == "dict":
         for it in v["items"]:
-            mark(it["v"], itn, quote)
+            mark(it["v"], itn, quote, generated)
     elif v["t"] == "list":
         for e in v["elems"]:
-            mark(e, itn, quote)
+            mark(e, itn, quote, generated)
     elif v["t"] == "str":
         s = itn.strs[v["id"] - 1]
+        lk = looks_like(s)
         v["q"] = re.search(r"(?<!\\)" + re.escape(quote), s) is not None      # an *unescaped* output quote
-        v["lk"] = looks_like(s)
+        v["lk"] = lk
+        if generated and lk:
+            v["q"] = False
+            v["lk"] = ""
     return v
 
 
@@ -56,10 +65,10 @@ def anyq(v):
     return bool(v.get("q"))
 
 
-def make_record(tid, d1, dumps, loads, quote='"'):
+def make_record(tid, d1, dumps, loads, quote='"', generated=False):
     itn = tracecheck.Interner()
     p1 = project.project(d1)
-    rec = {"tid": tid, "d1": mark(itn.value(p1), itn, quote)}
+    rec = {"tid": tid, "d1": mark(itn.value(p1), itn, quote, generated)}
     try:
         text2 = dumps(d1)
     except Exception as ex:  # noqa: BLE001
@@ -88,7 +97,7 @@ def run(tier):
 
     def add(tid, d1, origin, text, quote='"', dmp=None):
         ck.count()
-        rec, err, text2 = make_record(tid, d1, dmp or dumps, loads, quote)
+        rec, err, text2 = make_record(tid, d1, dmp or dumps, loads, quote, generated=not origin.startswith("corpus"))
         if err:
             ck.violation("C01|%s|%s|%s" % (err[0], origin.split(":")[0], err[1]),
                          "dumps raised %s on a loaded document: %s" % (err[1], err[2]), {"text": text, "origin": origin})
